@@ -10,8 +10,11 @@ minimal failing subset, which becomes the replay file.
 import hashlib, itertools, json, os, random, shutil, subprocess, sys, time
 
 ROOT = os.path.dirname(os.path.dirname(os.path.abspath(__file__)))
-REPO = '/repo'
-TARGET = os.path.join(ROOT, 'engine', 'target-feat')
+REPO = os.environ.get('VERIF_REPO') or '/repo'
+# outputs (evidence, found cases, build directories) go to a scratch directory when the check is run
+# against a scratch copy of the repository (VERIF_REPO) or from a snapshot of /verif
+OUT = os.environ.get('VERIF_OUT') or ((os.path.abspath(REPO).rstrip('/') + '-verif/out') if os.environ.get('VERIF_REPO') else ROOT)
+TARGET = os.path.join(ROOT, 'engine', 'target-feat') if OUT == ROOT else os.path.join(OUT, 'target-feat')
 PID = 'C35'
 
 ZVARIANT = ['gvariant', 'option-as-array', 'camino', 'arrayvec', 'enumflags2', 'serde_bytes', 'uuid', 'url', 'time', 'chrono', 'heapless']
@@ -115,7 +118,7 @@ def main():
     seed = int(os.environ.get('VERIF_SEED', '0') or 0)
     rnd = random.Random(seed * 1000003 + 35)
     t0 = time.time()
-    tmp = os.path.join(ROOT, 'engine', 'feat-down')
+    tmp = os.path.join(ROOT, 'engine', 'feat-down') if OUT == ROOT else os.path.join(OUT, 'feat-down')
     shutil.rmtree(tmp, ignore_errors=True)
     os.makedirs(tmp, exist_ok=True)
     quick = tier == 'quick'
@@ -187,9 +190,9 @@ def main():
                                 cur, out, changed = t, out2, True
                                 break
                     desc['features'] = cur
-                os.makedirs(os.path.join(ROOT, 'found', PID), exist_ok=True)
+                os.makedirs(os.path.join(OUT, 'found', PID), exist_ok=True)
                 h = hashlib.sha1(json.dumps(desc, sort_keys=True).encode()).hexdigest()[:8]
-                path = os.path.join(ROOT, 'found', PID, f'build-{h}.json')
+                path = os.path.join(OUT, 'found', PID, f'build-{h}.json')
                 json.dump({'property': PID, 'check': 'build', 'seed': seed, 'case': desc, 'key': key, 'message': out[-1500:]}, open(path, 'w'), indent=1)
                 violations.append((path, desc, out))
         nfe = len(feats) if kind == 'crate' else sum(len(d[1]) for d in feats)
@@ -233,8 +236,8 @@ def main():
             'assumptions': ['platform-only features (windows, macOS) are not built; vsock / tokio-vsock are built only together with their runtime'],
             'wall_s': round(wall, 1), 'violations': len(violations),
         }
-        os.makedirs(os.path.join(ROOT, 'evidence'), exist_ok=True)
-        json.dump(ev, open(os.path.join(ROOT, 'evidence', f'{PID}.json'), 'w'), indent=1)
+        os.makedirs(os.path.join(OUT, 'evidence'), exist_ok=True)
+        json.dump(ev, open(os.path.join(OUT, 'evidence', f'{PID}.json'), 'w'), indent=1)
     print(f'{PID}: tier={tier} seed={seed} configurations={len(results)} nontrivial={len(nontrivial)} excluded_known={excluded} wall={wall:.0f}s')
     if violations:
         for path, desc, out in violations:
